@@ -295,13 +295,29 @@ pub fn alphas_thorough() -> Vec<Alpha> {
 }
 
 /// value length that lands in slot class i (0..15) / key length whose record lands in key class i
+/// the largest value length whose record still fits slot class i (one byte more lands in the next class)
 fn class_value_len(i: usize) -> u32 {
-    let c = crate::decoder::CLASSES[i];
-    if i < 15 { c - 4 } else { 1000 }
+    let c = crate::decoder::CLASSES[i] as u64;
+    if i >= 15 {
+        return 1000;
+    }
+    let mut len = c;
+    while crate::decoder::value_slot_for(len) > c {
+        len -= 1;
+    }
+    len as u32
 }
+/// the largest key length whose record (chain tail, small offsets) still fits key slot class i
 fn class_key_len(i: usize) -> usize {
-    let c = crate::decoder::CLASSES[i] as usize;
-    if i == 0 { 8 } else if i < 15 { c - 8 } else { 1000 }
+    let c = crate::decoder::CLASSES[i] as u64;
+    if i >= 15 {
+        return 1000;
+    }
+    let mut len = c;
+    while len > 0 && crate::decoder::key_slot_for(len, 200, 0) > c {
+        len -= 1;
+    }
+    len as usize
 }
 
 /// one small closure per pair of adjacent slot classes, for values and for keys: every free-list head
@@ -309,7 +325,8 @@ fn class_key_len(i: usize) -> usize {
 pub fn class_ladder(ctx: &mut Ctx, prop: &str, oracles: u32, clauses: u32, reopen: bool, step: usize) {
     let seed = ctx.seed;
     for i in (0..15).step_by(step) {
-        let a = Alpha { label: "class ladder (values)", colliding: vec![5, 6], other: vec![], vals: vec![class_value_len(i), class_value_len(i + 1)] };
+        // the largest length that fits class i, one byte more (first length of class i+1), and the largest of class i+1
+        let a = Alpha { label: "class ladder (values)", colliding: vec![5, 6], other: vec![], vals: vec![class_value_len(i), class_value_len(i) + 1, class_value_len(i + 1)] };
         let mut cfg = make_cfg(prop, KtId::Bytes, 8, &a, seed);
         cfg.oracles = oracles;
         cfg.clauses = clauses;
@@ -317,19 +334,108 @@ pub fn class_ladder(ctx: &mut Ctx, prop: &str, oracles: u32, clauses: u32, reope
             cfg.params = reopen_params(cfg.params[0]);
         }
         let starts: Vec<Start> = empty_start(ctx, &cfg).into_iter().collect();
-        run_closure(ctx, &format!("class ladder: 2 colliding keys x values of {} and {} bytes (value slots {} and {})", a.vals[0], a.vals[1], crate::decoder::CLASSES[i], crate::decoder::CLASSES[i + 1]), &cfg, starts, 100_000, 20.0);
+        run_closure(ctx, &format!("class ladder: 2 colliding keys x values of {}, {} and {} bytes (value slots {} and {})", a.vals[0], a.vals[1], a.vals[2], crate::decoder::CLASSES[i], crate::decoder::CLASSES[i + 1]), &cfg, starts, 100_000, 20.0);
         if ctx.run.too_many() || !ctx.run.violations.is_empty() {
             return;
         }
     }
     for i in (0..15).step_by(step) {
-        let a = Alpha { label: "class ladder (keys)", colliding: vec![class_key_len(i), class_key_len(i + 1)], other: vec![], vals: vec![3, 40] };
+        let a = Alpha { label: "class ladder (keys)", colliding: vec![class_key_len(i), class_key_len(i) + 1], other: vec![], vals: vec![3, 40] };
         let mut cfg = make_cfg(prop, KtId::Bytes, 8, &a, seed);
         cfg.oracles = oracles;
         cfg.clauses = clauses;
         if reopen {
             cfg.params = reopen_params(cfg.params[0]);
         }
+        let starts: Vec<Start> = empty_start(ctx, &cfg).into_iter().collect();
+        run_closure(ctx, &format!("class ladder: colliding keys of {} and {} bytes (key slots {} and {}) x {{3,40}}", a.colliding[0], a.colliding[1], crate::decoder::CLASSES[i], crate::decoder::CLASSES[i + 1]), &cfg, starts, 100_000, 20.0);
+        if ctx.run.too_many() || !ctx.run.violations.is_empty() {
+            return;
+        }
+    }
+}
+
+/// closure over explicit keys (a one-bucket table, so that all of them share a chain)
+pub fn explicit_keys_closure(ctx: &mut Ctx, prop: &str, kt: KtId, keys: Vec<Vec<u8>>, vals: Vec<u32>, oracles: u32, clauses: u32, label: &str, cap: usize, secs: f64) {
+    let seed = ctx.seed;
+    let a = Alpha { label: "explicit keys", colliding: vec![5], other: vec![], vals };
+    let mut cfg = make_cfg(prop, kt, 1, &a, seed);
+    cfg.init_vals = vec![None; keys.len()];
+    cfg.absent.retain(|k| !keys.contains(k));
+    cfg.keys = keys;
+    cfg.oracles = oracles;
+    cfg.clauses = clauses;
+    let starts: Vec<Start> = empty_start(ctx, &cfg).into_iter().collect();
+    run_closure(ctx, label, &cfg, starts, cap, secs);
+}
+
+/// string keys that are not valid UTF-8, in one chain; values that make the key record move
+pub fn non_utf8_closure(ctx: &mut Ctx, prop: &str, oracles: u32, clauses: u32) {
+    explicit_keys_closure(ctx, prop, KtId::Str, vec![vec![0xFF, 0xFE, b'k'], vec![b'a', 0xC3]], vec![5, 40, 1000], oracles, clauses, "2 string keys that are not valid UTF-8 x {5,40,1000} [string, 1 bucket]", 100_000, 20.0);
+}
+
+/// integer keys at the ends of the domain (9-byte vu64 encodings, negative i64), in one chain
+pub fn int_boundary_closures(ctx: &mut Ctx, prop: &str, oracles: u32, clauses: u32) {
+    for (kt, xs) in [(KtId::Vu64, [u64::MAX, 1u64 << 56, 127]), (KtId::U64, [u64::MAX, 0, 1u64 << 56]), (KtId::I64, [u64::MAX, 1u64 << 63, 0])] {
+        let keys: Vec<Vec<u8>> = xs.iter().map(|x| crate::alphabet::int_key(kt, *x)).collect();
+        explicit_keys_closure(ctx, prop, kt, keys, vec![5, 40], oracles, clauses, &format!("3 integer keys at the ends of the domain {:?} x {{5,40}} [{}, 1 bucket]", xs, kt.name()), 100_000, 20.0);
+        if !ctx.run.violations.is_empty() {
+            return;
+        }
+    }
+}
+
+/// a closure that starts from a scripted image holding live records of every slot class and of several
+/// sizes of the shared large class (more than 16 different slot sizes per file)
+pub fn many_sizes_closure(ctx: &mut Ctx, prop: &str, oracles: u32, clauses: u32, cap: usize, secs: f64) {
+    let seed = ctx.seed;
+    let kt = KtId::Bytes;
+    let a = Alpha { label: "many sizes", colliding: vec![7, 7], other: vec![], vals: vec![3, 1100] };
+    let mut cfg = make_cfg(prop, kt, 8, &a, seed);
+    let mut steps: Vec<Step> = Vec::new();
+    let mut extras: Vec<(Vec<u8>, Vec<u8>)> = Vec::new();
+    let mut vlens: Vec<usize> = (0..15).map(|i| class_value_len(i) as usize).collect();
+    vlens.extend([1200usize, 1400, 1700, 2000, 3000]);
+    let mut klens: Vec<usize> = (0..15).map(class_key_len).collect();
+    klens.extend([1100usize, 1300, 1600, 2200, 2900]);
+    for (i, (vl, kl)) in vlens.iter().zip(klens.iter()).enumerate() {
+        let mut k = vec![b'A' + (i as u8 % 26); (*kl).max(2)];
+        k[0] = b'#';
+        k[1] = i as u8;
+        let v = vec![i as u8 + 1; *vl];
+        steps.push(Step::Put(k.clone(), v.clone()));
+        extras.push((k, v));
+    }
+    // two more of them are deleted again, so that free lists are populated too
+    for i in [3usize, 17] {
+        let (k, _) = extras.remove(i);
+        steps.push(Step::Del(k));
+    }
+    cfg.absent.retain(|k| !extras.iter().any(|e| &e.0 == k));
+    cfg.extras = extras.into_iter().collect();
+    cfg.oracles = oracles;
+    cfg.clauses = clauses;
+    cfg.slot_slack = 2;
+    match build_image(&ctx.pool, kt, &cfg.params[0], &steps) {
+        Ok(image) => {
+            let start = Start { label: "scripted image with live records of every slot class and five sizes of the large class".into(), image, code: vec![0; cfg.keys.len()] };
+            run_closure(ctx, "from an image with more than 16 different slot sizes per file: 2 colliding keys x {3,1100} [bytes]", &cfg, vec![start], cap, secs);
+        }
+        Err(e) => {
+            let msg = format!("building a map with records of every slot class fails: {e}");
+            ctx.run.violation(crate::report::Violation { prop: prop.to_string(), key: "many-sizes:script-fails".into(), message: msg.clone(), replay: crate::report::Replay { engine: "seed".into(), config: seed_job(kt, &cfg.params[0], &steps), case: vec![], story: vec![msg] } });
+        }
+    }
+}
+
+/// the key half of the class ladder alone
+pub fn class_ladder_keys(ctx: &mut Ctx, prop: &str, oracles: u32, clauses: u32, step: usize) {
+    let seed = ctx.seed;
+    for i in (0..15).step_by(step) {
+        let a = Alpha { label: "class ladder (keys)", colliding: vec![class_key_len(i), class_key_len(i) + 1], other: vec![], vals: vec![3, 40] };
+        let mut cfg = make_cfg(prop, KtId::Bytes, 8, &a, seed);
+        cfg.oracles = oracles;
+        cfg.clauses = clauses;
         let starts: Vec<Start> = empty_start(ctx, &cfg).into_iter().collect();
         run_closure(ctx, &format!("class ladder: colliding keys of {} and {} bytes (key slots {} and {}) x {{3,40}}", a.colliding[0], a.colliding[1], crate::decoder::CLASSES[i], crate::decoder::CLASSES[i + 1]), &cfg, starts, 100_000, 20.0);
         if ctx.run.too_many() || !ctx.run.violations.is_empty() {
@@ -387,9 +493,18 @@ pub fn c01(tier: &str, seed: u64) -> i32 {
         // histories that start where offsets are about to need one more byte (16 KiB): seeded images
         let specs = vec![
             crate::props_c08::SeedSpec { file: "val", boundary: 16 * 1024, eps: 16, free_slots: 0 , val_pad: 0},
-            crate::props_c08::SeedSpec { file: "key", boundary: 16 * 1024, eps: 16, free_slots: 2 , val_pad: 0},
+            crate::props_c08::SeedSpec { file: "key", boundary: 16 * 1024, eps: 16, free_slots: 2, val_pad: 0 },
+            crate::props_c08::SeedSpec { file: "key", boundary: 128 * 1024, eps: 0, free_slots: 2, val_pad: 1200 },
         ];
         crate::props_c08::seeded_group(&mut ctx, "C01", O_API, 0, 2, vec![3, 200], &specs, 60_000, 10.0);
+        // a table size that is not a power of two is requested (the table really has 16 buckets)
+        let a = &alphas_small()[0];
+        let mut cfg = make_cfg("C01", KtId::Bytes, 16, a, seed);
+        cfg.params[0].ht = HtP::Buckets(10);
+        cfg.oracles = O_API;
+        let starts: Vec<Start> = empty_start(&mut ctx, &cfg).into_iter().collect();
+        run_closure(&mut ctx, &format!("{} [bytes, BucketsSize(10) requested]", a.label), &cfg, starts, 100_000, 20.0);
+        non_utf8_closure(&mut ctx, "C01", O_API, 0);
     }
     if ctx.run.violations.is_empty() {
         let step = if ctx.thorough() { 1 } else { 4 };
@@ -412,6 +527,13 @@ pub fn c02(tier: &str, seed: u64) -> i32 {
     standard_runs(&mut ctx, "C02", O_API | O_REOPEN | O_ITER | O_ALT_PARAMS, 0, 0, true, &KtId::ALL, 200_000);
     if ctx.run.violations.is_empty() {
         class_ladder(&mut ctx, "C02", O_API | O_REOPEN | O_ALT_PARAMS, 0, true, 1);
+    }
+    if ctx.run.violations.is_empty() {
+        let specs = vec![
+            crate::props_c08::SeedSpec { file: "val", boundary: 16 * 1024, eps: 16, free_slots: 0, val_pad: 0 },
+            crate::props_c08::SeedSpec { file: "key", boundary: 16 * 1024, eps: 16, free_slots: 2, val_pad: 0 },
+        ];
+        crate::props_c08::seeded_group(&mut ctx, "C02", O_API | O_REOPEN, 0, 2, vec![3, 200], &specs, 60_000, 10.0);
     }
     if ctx.run.violations.is_empty() {
         // the same small closure once more with every state expanded by a freshly spawned process
@@ -454,6 +576,17 @@ pub fn c05(tier: &str, seed: u64) -> i32 {
     }
     if ctx.run.violations.is_empty() {
         c05_big_counts(&mut ctx);
+    }
+    if ctx.run.violations.is_empty() {
+        // string keys that are not valid UTF-8, in one chain; values that make the key record move
+        let a = Alpha { label: "2 keys x {5,40}", colliding: vec![5], other: vec![5], vals: vec![5, 40, 1000] };
+        let mut cfg = make_cfg("C05", KtId::Str, 1, &a, seed);
+        cfg.keys = vec![vec![0xFF, 0xFE, b'k'], vec![b'a', 0xC3]];
+        cfg.init_vals = vec![None; 2];
+        cfg.oracles = O_DEC | O_DEC_CONTENTS;
+        cfg.clauses = clauses;
+        let starts: Vec<Start> = empty_start(&mut ctx, &cfg).into_iter().collect();
+        run_closure(&mut ctx, "2 string keys that are not valid UTF-8 x {5,40,1000} [string, 1 bucket]", &cfg, starts, 100_000, 20.0);
     }
     crate::props_c08::seeded_runs(&mut ctx, "C05", O_DEC | O_DEC_CONTENTS, clauses, true);
     let rule = format!("{RULE_A}; invariant evaluated on every state by the independent decoder: acyclic chains, keys hash to their bucket, no duplicate key, stored count = reachable keys, bitmap covers non-empty buckets, value references in bounds and unshared, records within their slots, decoded contents = model; non-trivial = states with a chain of >= 2 keys or a non-empty free list");
@@ -712,6 +845,11 @@ pub fn c15(tier: &str, seed: u64) -> i32 {
         run_closure(&mut ctx, &format!("{} [bytes, {n} bucket(s)] every read-only call alone", a.label), &cfg, starts, 100_000, 30.0);
     }
     {
+        // a key file whose next record straddles the 128 KiB buffer-chunk boundary
+        let specs = vec![crate::props_c08::SeedSpec { file: "key", boundary: 128 * 1024, eps: 8, free_slots: 0, val_pad: 0 }];
+        crate::props_c08::seeded_group_ro(&mut ctx, "C15", O_RO, 1, 2, vec![3, 200], &specs, 20_000, 10.0);
+    }
+    {
         // a table larger than one buffer chunk of bitmap (more than 131072 buckets)
         let a = Alpha { label: "1 key x {5}", colliding: vec![5], other: vec![], vals: vec![5] };
         let mut cfg = make_cfg("C15", KtId::Bytes, 262_144, &a, seed);
@@ -754,6 +892,18 @@ pub fn c17(tier: &str, seed: u64) -> i32 {
         ];
         crate::props_c08::seeded_group(&mut ctx, "C17", o, clauses, 2, vec![3, 200], &specs, 60_000, 10.0);
         class_ladder(&mut ctx, "C17", o, clauses, false, 3);
+    }
+    for lens in [vec![1000usize, 1500], vec![class_key_len(13), class_key_len(14), class_key_len(14) + 1]] {
+        // freed key slots of the largest exact class and of the shared large class
+        let a = Alpha { label: "long keys", colliding: lens.clone(), other: vec![], vals: vec![8] };
+        let mut cfg = make_cfg("C17", KtId::Bytes, 8, &a, seed);
+        cfg.oracles = o;
+        cfg.clauses = clauses;
+        let starts: Vec<Start> = empty_start(&mut ctx, &cfg).into_iter().collect();
+        run_closure(&mut ctx, &format!("colliding keys of {:?} bytes x {{8}} [bytes]", lens), &cfg, starts, 60_000, 15.0);
+    }
+    if ctx.run.violations.is_empty() {
+        many_sizes_closure(&mut ctx, "C17", o, clauses, 20_000, 10.0);
     }
     // tables below 8 buckets (the bitmap is shorter than a byte per 8 buckets there)
     for n in [1u64, 2, 4] {
